@@ -9,32 +9,33 @@ import (
 )
 
 type HarnessCfg struct {
-	Name           string             `json:"name"`
-	Pkg            string             `json:"pkg"`
-	Func           string             `json:"func"`
-	Mode           string             `json:"mode"`
-	BoundsQ        map[string]int     `json:"bounds_quick"`
-	BoundsT        map[string]int     `json:"bounds_thorough"`
-	Unwind         int                `json:"unwind"`
-	UnwindConcrete int                `json:"unwind_concrete"`
-	MaxSteps       int64              `json:"max_steps"`
-	MaxAlloc       int                `json:"max_alloc"`
-	MaxThreads     int                `json:"max_threads"`
-	TimeoutS       map[string]float64 `json:"timeout_s"`
-	MapOrder       string             `json:"map_order"`
-	Sched          string             `json:"sched"`
-	Race           bool               `json:"race"`
-	RealLimit      float64            `json:"real_limit"`
-	NearEps        float64            `json:"near_eps"`
-	Reach          []string           `json:"reach"`
-	MaxPaths       int                `json:"max_paths"`
-	Panics         string             `json:"panics"` // runtime (default) | any | none
-	Tiers          []string           `json:"tiers"`  // default both
-	Note           string             `json:"note"`
-	Shrink         []string           `json:"shrink"` // names of shrink overlays this harness relies on (informational)
-	Workers        int                `json:"workers"`
-	Preemptions    int                `json:"preemptions"` // sched=all: bound on preemptive context switches per path (default 2)
-	MinMaxIte      bool               `json:"minmax_ite"`  // math mode: encode min/max/abs as ite terms instead of forking (linear harnesses)
+	Name            string             `json:"name"`
+	Pkg             string             `json:"pkg"`
+	Func            string             `json:"func"`
+	Mode            string             `json:"mode"`
+	BoundsQ         map[string]int     `json:"bounds_quick"`
+	BoundsT         map[string]int     `json:"bounds_thorough"`
+	Unwind          int                `json:"unwind"`
+	UnwindConcrete  int                `json:"unwind_concrete"`
+	MaxSteps        int64              `json:"max_steps"`
+	MaxAlloc        int                `json:"max_alloc"`
+	MaxThreads      int                `json:"max_threads"`
+	TimeoutS        map[string]float64 `json:"timeout_s"`
+	MapOrder        string             `json:"map_order"`
+	Sched           string             `json:"sched"`
+	Race            bool               `json:"race"`
+	RealLimit       float64            `json:"real_limit"`
+	NearEps         float64            `json:"near_eps"`
+	Reach           []string           `json:"reach"`
+	MaxPaths        int                `json:"max_paths"`
+	Panics          string             `json:"panics"` // runtime (default) | any | none
+	Tiers           []string           `json:"tiers"`  // default both
+	Note            string             `json:"note"`
+	Shrink          []string           `json:"shrink"` // names of shrink overlays this harness relies on (informational)
+	Workers         int                `json:"workers"`
+	Preemptions     int                `json:"preemptions"`         // sched=all: bound on preemptive context switches per path (default 2)
+	MinMaxIte       bool               `json:"minmax_ite"`          // math mode: encode min/max/abs as ite terms instead of forking (linear harnesses)
+	UnwindViolation bool               `json:"unwind_is_violation"` // termination is part of the property (C14)
 
 	Bounds    map[string]int `json:"-"`
 	TimeoutMs int            `json:"-"`
